@@ -541,3 +541,25 @@ func FamilyAtomPaths(thorough bool) []Program {
 	out = append(out, one("v", And{[]Formula{Atom{Path: PType{}, Kind: "maxCount", N: 1}}}))
 	return out
 }
+
+// FamilyLocations: a few programs whose results carry traces, nested sub-results and several
+// branches (the location obligations do not depend on the constraint kinds).
+func FamilyLocations(thorough bool) []Program {
+	out := []Program{
+		one("v", And{[]Formula{mc(0)}}),
+		one("v", And{[]Formula{Atom{Path: P(0), Kind: "pattern", Pattern: "^a"}, Atom{Path: P(1), Kind: "maxCount", N: 0}}}),
+		one("v", Or{[]Formula{And{[]Formula{mc(0)}}, And{[]Formula{mc(1)}}}}),
+		one("v", Nested{P(0), And{[]Formula{mc(1)}}}),
+		one("v", Quant{P(0), true, 1, And{[]Formula{mc(1)}}}),
+		one("v", Not{Nested{P(0), And{[]Formula{mc(1)}}}}),
+	}
+	if thorough {
+		out = append(out,
+			one("v", Quant{P(0), false, 0, And{[]Formula{mc(1)}}}),
+			one("v", Nested{P(0), Nested{P(1), And{[]Formula{mc(0)}}}}),
+			one("v", If{C: And{[]Formula{mc(0)}}, T: And{[]Formula{mc(1)}}, E: And{[]Formula{Atom{Path: P(1), Kind: "maxCount", N: 0}}}}),
+			Program{Name: "P", Validations: []Validation{{Name: "va", Level: "warning", Class: 0, F: And{[]Formula{mc(0)}}}, {Name: "vb", Level: "info", Class: 1, F: And{[]Formula{mc(1)}}}}},
+		)
+	}
+	return out
+}
